@@ -80,9 +80,9 @@ def main():
         else:
             na.append(dict(property_id=pid, reason=NOT_APPLICABLE.get(pid, 'no contract unit carries this property yet in this round (see DESIGN.md §6 for the planned units); not claimed rather than decided by another technique')))
     m = dict(version=1, setup_cmd='python3 tools/setup.py',
-             hooks=dict(guard='JLS_VERIF',
-                        enable='no hook is compiled into /repo: contracts, loop invariants and ghost statements are injected mechanically into a scratch copy of the current /repo/src/*.c on every run (tools/inject.py; -DJLS_VERIF=1 is passed to goto-cc only)',
-                        baseline_off_cmd='sh tools/baseline.sh', source_commits=[], add_only=True),
+             hooks=dict(guard='JLS_VERIF_FSR_BUFFER_WORDS',
+                        enable='one hook in /repo (include_prv/jls/core.h): with -DJLS_VERIF_FSR_BUFFER_WORDS=<n> the per-signal FSR scratch array buffer_u64 has n words instead of 4096; only the wrfsr units of tools/check.py pass it (=16) to goto-cc so that struct jls_core_fsr_s fits CBMC. Everything else (contracts, loop invariants, ghost statements) is injected mechanically into a scratch copy of the current /repo/src/*.c on every run (tools/inject.py); nothing else is compiled into /repo',
+                        baseline_off_cmd='sh tools/baseline.sh', source_commits=['c9c9799fd8a5513763836c1ef26ae6467d8c1585'], add_only=True),
              engines=[dict(name='cbmc-contracts', path='tools/check.py', serves_properties=[c['property_id'] for c in checks],
                            kind_free_text='CBMC 6.11 code contracts (goto-instrument --dfcc enforce/replace, loop contracts) on the real sources; SAT (cadical) and cvc5 int-blasting back ends')],
              checks=checks, not_applicable=na,
